@@ -149,9 +149,16 @@ def build_coq(prop=None):
     Properties file and the extraction of its model group; all of the tree
     when prop is None.  returns (ok, log)"""
     with Lock("coq"):
-        mk = os.path.join(COQ, "Makefile")
-        if not os.path.exists(mk) or os.path.getmtime(os.path.join(COQ, "_CoqProject")) > os.path.getmtime(mk):
-            subprocess.run(["coq_makefile", "-f", "_CoqProject", "-o", "Makefile"],
+        # generate the Makefile from the _CoqProject lines whose file exists
+        # (a listed but not yet written file must not stop other targets)
+        proj = open(os.path.join(COQ, "_CoqProject")).read().split("\n")
+        keep = [l for l in proj if not l.strip().endswith(".v") or os.path.exists(os.path.join(COQ, l.strip()))]
+        gen = "\n".join(keep) + "\n"
+        gp = os.path.join(COQ, "_CoqProject.gen")
+        mk = os.path.join(COQ, "Makefile.gen")
+        if not os.path.exists(gp) or open(gp).read() != gen or not os.path.exists(mk):
+            open(gp, "w").write(gen)
+            subprocess.run(["coq_makefile", "-f", "_CoqProject.gen", "-o", "Makefile.gen"],
                            cwd=COQ, check=True, stdout=subprocess.DEVNULL)
         os.makedirs(os.path.join(COQ, "extracted"), exist_ok=True)
         targets = []
@@ -159,7 +166,7 @@ def build_coq(prop=None):
         if prop is not None:
             gname, g = group_of(prop)
             targets = ["Properties/%s.vo" % prop, g["extract"]]
-        p = subprocess.run(["timeout", "3000", "make", "-k", "-j%d" % NPROC] + targets,
+        p = subprocess.run(["timeout", "3000", "make", "-f", "Makefile.gen", "-k", "-j%d" % NPROC] + targets,
                            cwd=COQ, stdout=subprocess.PIPE, stderr=subprocess.STDOUT, text=True)
         ok = p.returncode == 0
         out = p.stdout
